@@ -557,6 +557,8 @@ static size_t bundle_ring_length(ring_t *ring)
                   deref(pos+1, ring) << (8*2) |
                   deref(pos+2, ring) << (8*1) |
                   deref(pos+3, ring) << (8*0);
+        if(advance > ring[0].len+ring[1].len)
+            return 0; //element cannot be complete
         if(advance)
             pos += 4+advance;
     } while(advance);
